@@ -28,7 +28,7 @@ type Prop struct{}
 
 func (Prop) ID() string     { return "C14" }
 func (Prop) Level() string  { return "exploration" }
-func (Prop) QuickRuns() int { return 2200 }
+func (Prop) QuickRuns() int { return 1800 }
 
 // CrossProcessRuns: encodings must be byte-identical between processes too.
 func (Prop) CrossProcessRuns() int { return 400 }
